@@ -373,11 +373,24 @@ def child_main(inputs, start, wfd):
     os._exit(0)
 
 
-def run_batch(inputs, sim):
+# Circuit breaker.  A change that makes ordinary inputs hang (a read loop without an end-of-input exit, say) would
+# cost one 30 s watchdog per input: after three hangs seen by a worker process the verdict is settled (each was
+# reported) and the rest of that worker's inputs are skipped, so that the VIOLATION is printed within minutes.
+# Never triggered on a tree without hangs; the fixed many_namespaces case of the known finding does not count.
+_HANGS = {"n": 0}
+BREAKER = 3
+
+
+def run_batch(inputs, sim, breaker=True):
     """Run all inputs in forked children. Returns per-input result dicts."""
     results = {}
     start = 0
     while start < len(inputs):
+        if breaker and _HANGS["n"] >= BREAKER:
+            for i in range(start, len(inputs)):
+                results.setdefault(i, {"outcome": "skipped", "detail": "circuit breaker", "items": 0, "reads": 0,
+                                       "growth": 0, "secs": 0, "len": 0})
+            break
         r, w = os.pipe()
         pid = os.fork()
         if pid == 0:
@@ -429,6 +442,8 @@ def run_batch(inputs, sim):
         if hung and current is not None:
             results[current] = {"outcome": "hang", "detail": f"no result within {TIMEOUT}s", "items": 0, "reads": 0,
                                 "growth": 0, "secs": TIMEOUT, "len": cur_len}
+            if breaker and inputs[current].get("template") != "many_namespaces":
+                _HANGS["n"] += 1
             start = current + 1
         elif abnormal and current is not None:
             why = f"signal {os.WTERMSIG(status)}" if os.WIFSIGNALED(status) else f"exit status {os.WEXITSTATUS(status)}"
@@ -451,6 +466,9 @@ def execute(plan, sim):
         res = results.get(i)
         if res is None:
             raise HarnessError(f"no result for input {i}")
+        if res["outcome"] == "skipped":
+            sim.count("skipped_after_hangs")
+            continue
         sim.count("evaluations")
         sim.count("kind_" + rec["kind"])
         sim.fault("corrupt_" + (rec.get("op") or rec.get("template") or rec["kind"]))
@@ -476,7 +494,7 @@ def execute(plan, sim):
         bound = RSS_BASE + RSS_PER_BYTE * res["len"]
         if oc == "hang":
             # confirm twice, alone
-            confirmed = all(run_batch([rec], sim)[0]["outcome"] == "hang" for _ in range(2))
+            confirmed = all(run_batch([rec], sim, breaker=False)[0]["outcome"] == "hang" for _ in range(2))
             if confirmed:
                 v.setdefault(("hang", rec.get("template")), {"clause": "C17.hang", "sig": sig_base,
                                                               "msg": f"{where}: no result within {TIMEOUT} s (3 attempts)"})
